@@ -34,7 +34,7 @@ def run_batch(ctx, module, cfg, cases, observers, sigfn, negfn=None, chunk=30000
             if v == "triv":
                 continue
             if v == "ok":
-                h = hash(json.dumps([o, i], sort_keys=True))
+                h = hash((o, i["_k"])) if isinstance(i, dict) and "_k" in i else hash(json.dumps([o, i], sort_keys=True))
                 if h not in seen:
                     seen.add(h)
                     ctx.nontrivial += 1
@@ -47,7 +47,7 @@ def run_batch(ctx, module, cfg, cases, observers, sigfn, negfn=None, chunk=30000
     size = 0
     for c in cases:
         buf.append(c)
-        size += 4 * len(json.dumps(c[1])) + 200  # rough size of the recorded event
+        size += (40 * len(c[1].get("P", "")) + 2000) if isinstance(c[1], dict) and "lay" in c[1] else 4 * len(json.dumps(c[1])) + 200  # rough size of the recorded event
         if len(buf) >= chunk or size > 24_000_000:
             flush()
             size = 0
